@@ -312,7 +312,7 @@ def case_mode(case):
 
         npaths = 0
         for (got, orders, pools, nio), pc, trace in c.explore(
-                run, budget_s=2400):
+                run, budget_s=9000):
             npaths += 1
             t1 = time.time()
             calls_got = got.pop('__solver_inputs__')
@@ -660,8 +660,9 @@ def main(tier):
                  (2, 1, True, False, 1, 'dict')]
     else:
         shapes = [(3, 1), (1, 3), (2, 2)]
-        extra = [(3, 1, tq, fl, 'all') for tq in (False, True)
-                 for fl in (False, True)]
+        # (all 6^3 combinations of completion orders of the three pool
+        # runs: 216 paths, one configuration)
+        extra = [(3, 1, False, True, 'all')]
         extra += [(2, 1, tq, fl, st, 'dict') for tq in (False, True)
                   for fl in (False, True) for st in (0, 1, 2)]
     cases = [(ns, nf, tq, fl, st) for ns, nf in shapes
